@@ -475,3 +475,70 @@ func Harness_C10_Flatten() {
 	_, has := scope["x"]
 	nd.Assert("flatten:scope-variable-not-leaked", !has)
 }
+
+// a view that calls itself from inside an operand of != (and of ==): every level of the
+// recursion evaluates the same expression nodes, and the result is the one the language
+// defines at every depth; the program is left as it was.
+func Harness_C10_RecursiveViews() {
+	n := nd.Int("n", 8)
+	max := int64(4)
+	if nd.Thorough() {
+		max = 7
+	}
+	nd.Assume(n >= 0 && n <= max)
+	ee := c10EE()
+	ifelse := func(c, t, f *sysl.Expr) *sysl.Expr {
+		return &sysl.Expr{Expr: &sysl.Expr_Ifelse{Ifelse: &sysl.Expr_IfElse{Cond: c, IfTrue: t, IfFalse: f}}}
+	}
+	call := func(fn string, args ...*sysl.Expr) *sysl.Expr {
+		return &sysl.Expr{Expr: &sysl.Expr_Call_{Call: &sysl.Expr_Call{Func: fn, Arg: args}}}
+	}
+	boolT := &sysl.Type{Type: &sysl.Type_Primitive_{Primitive: sysl.Type_BOOL}}
+	pred := c10Bin(sysl.Expr_BinExpr_SUB, c10Name("p"), c10Int(1))
+	ne := c10Bin(sysl.Expr_BinExpr_NE, call("odd", pred), c10Bool(true))
+	// odd(p) = if p == 0 then false else odd(p-1) != true
+	ee.txApp.Views["odd"] = &sysl.View{Param: []*sysl.Param{{Name: "p"}}, RetType: boolT,
+		Expr: ifelse(c10Bin(sysl.Expr_BinExpr_EQ, c10Name("p"), c10Int(0)), c10Bool(false), ne)}
+	// even(p) = if p == 0 then true else even(p-1) == false
+	eq := c10Bin(sysl.Expr_BinExpr_EQ, call("even", pred), c10Bool(false))
+	ee.txApp.Views["even"] = &sysl.View{Param: []*sysl.Param{{Name: "p"}}, RetType: boolT,
+		Expr: ifelse(c10Bin(sysl.Expr_BinExpr_EQ, c10Name("p"), c10Int(0)), c10Bool(true), eq)}
+	scope := Scope{}
+	res, ok := c10Eval(ee, scope, call("odd", c10Int(n)))
+	nd.Assert("recursion:not-equal-at-every-depth", ok && res != nil && res.GetB() == (n%2 == 1))
+	res, ok = c10Eval(ee, scope, call("even", c10Int(n)))
+	nd.Assert("recursion:equal-at-every-depth", ok && res != nil && res.GetB() == (n%2 == 0))
+	nd.Assert("recursion:program-unchanged", ne.GetBinexpr().Op == sysl.Expr_BinExpr_NE && eq.GetBinexpr().Op == sysl.Expr_BinExpr_EQ)
+	nd.Assert("recursion:caller-scope-untouched", len(scope) == 0)
+}
+
+// a let inside a transform that uses the name of a variable bound outside: the transform's
+// statements see the new value, the variable bound outside keeps its own; and a nested
+// transform whose scope variable has the name of an outer variable gives it back afterwards.
+func Harness_C10_LetAndScopeNames() {
+	outer := nd.Int("outer", 8)
+	inner := nd.Int("inner", 8)
+	e := nd.Int("element", 8)
+	ee := c10EE()
+	scope := Scope{"v": MakeValueI64(outer)}
+	letStmt := &sysl.Expr_Transform_Stmt{Stmt: &sysl.Expr_Transform_Stmt_Let{Let: &sysl.Expr_Transform_Stmt_Assign{Name: "v", Expr: c10Int(inner)}}}
+	outStmt := &sysl.Expr_Transform_Stmt{Stmt: &sysl.Expr_Transform_Stmt_Assign_{Assign: &sysl.Expr_Transform_Stmt_Assign{Name: "out", Expr: c10Bin(sysl.Expr_BinExpr_ADD, c10Name("v"), c10Name("x"))}}}
+	tf := &sysl.Expr{
+		Type: &sysl.Type{Type: &sysl.Type_List_{List: &sysl.Type_List{}}},
+		Expr: &sysl.Expr_Transform_{Transform: &sysl.Expr_Transform{Arg: c10List(c10Int(e)), Scopevar: "x",
+			Stmt: []*sysl.Expr_Transform_Stmt{letStmt, outStmt}}},
+	}
+	res, ok := c10Eval(ee, scope, tf)
+	nd.Assert("let:evaluates", ok && res != nil && len(GetValueSlice(res)) == 1)
+	if ok && res != nil && len(GetValueSlice(res)) == 1 {
+		v := GetValueSlice(res)[0].GetMap().Items["out"]
+		nd.Assert("let:visible-to-later-statements", v != nil && v.GetI() == inner+e)
+	}
+	nd.Assert("let:variable-bound-outside-keeps-its-value", scope["v"] != nil && scope["v"].GetI() == outer)
+
+	// scope variable named like an outer variable
+	scope2 := Scope{"x": MakeValueI64(outer)}
+	res, ok = c10Eval(ee, scope2, c10Transform(c10List(c10Int(e)), "x", false, c10Name("x")))
+	nd.Assert("scopevar:evaluates", ok && res != nil && len(GetValueSlice(res)) == 1)
+	nd.Assert("scopevar:outer-variable-of-the-same-name-restored", scope2["x"] != nil && scope2["x"].GetI() == outer)
+}
